@@ -42,7 +42,7 @@ def tasks(tier):
     for kind in (0, 1, 2):
         for second in (0, 1):
             ts.append(Task('verifHarness_C14_backoff_terminated', [kind, second]))
-    for busy in (0, 1):
+    for busy in (0, 1, 2, 3):
         ts.append(Task('verifHarness_C14_read_failure', [busy], {'x25_uf': True}))
     for one in (0, 1):
         for cd in (0, 1):
